@@ -14,6 +14,7 @@
 //!   q_pairs  <desc> [ids]    => obs [has_arc 0/1 …] [has_edge 0/1 …] [arc_weight …] unchanged   (row major over ids×ids)
 //!   q_walks  <desc> [walks]  => obs [has_walk 0/1 …] unchanged
 //!   q_remove <desc> [[u v]…] => obs [[removed 0/1, digraph-unchanged-by-it 0/1]…] unchanged
+//!   q_iter <desc> [ks] [ids]  => obs, per k one list of iterator records, unchanged   (see `iter_records`)
 //!   q_all <desc> [vertex ids] [pair ids] [walks] [[u v]…]
 //!                            => obs, then the outputs of the six ops above in that order, unchanged
 #![allow(clippy::all)]
@@ -239,6 +240,92 @@ fn remove<D: Q>(d: &D, ps: &[(usize, usize)]) -> Vec<V> {
 /// `q_cyclewalks <repr> [ids] <len> [positions]`: the directed cycle over `ids` and the closed walks of
 /// `len` vertices around it — one without a break, one per position `p` whose ONLY non-arc is the
 /// pair `(p, p+1)`. Compact form of `q_walks` for very long walks (both sides expand it).
+// ---------------------------------------------------------------------------------------
+// q_iter: one iterator value advanced `k` times with `next()` and then finished with a fold-based
+// consumer. The sequence a query yields must not depend on HOW the iterator is consumed.
+// ---------------------------------------------------------------------------------------
+
+trait IterItem: Clone {
+    fn enc(&self) -> V;
+    fn val(&self) -> usize;
+}
+impl IterItem for usize {
+    fn enc(&self) -> V {
+        V::u(*self)
+    }
+    fn val(&self) -> usize {
+        *self
+    }
+}
+impl IterItem for (usize, usize) {
+    fn enc(&self) -> V {
+        V::L(vec![V::u(self.0), V::u(self.1)])
+    }
+    fn val(&self) -> usize {
+        self.0.wrapping_add(self.1)
+    }
+}
+
+/// `[taken count last rest sum skipcount]` for the iterator `mk()` builds; a fresh iterator value per
+/// consumer, each advanced with `k` calls of `next()` first:
+/// taken = the `k` items `next()` returned; count = `it.count()`; last = `it.last()`;
+/// rest = the items `it.for_each(..)` visits; sum = `it.fold(0, |a, x| a + val(x))`;
+/// skipcount = `mk().skip(k).count()`.  The whole record is `panic` when building the iterator panics.
+fn iter_record<T: IterItem, I: Iterator<Item = T>>(mk: impl Fn() -> I, k: usize) -> V {
+    g(|| {
+        let advanced = || {
+            let mut it = mk();
+            let mut taken = vec![];
+            for _ in 0..k {
+                match it.next() {
+                    Some(x) => taken.push(x),
+                    None => break,
+                }
+            }
+            (taken, it)
+        };
+        let (taken, it) = advanced();
+        let count = it.count();
+        let last = advanced().1.last();
+        let mut rest = vec![];
+        advanced().1.for_each(|x| rest.push(x));
+        let sum = advanced().1.fold(0usize, |a, x| a.wrapping_add(x.val()));
+        let skipcount = mk().skip(k).count();
+        V::L(vec![
+            V::L(taken.iter().map(IterItem::enc).collect()),
+            V::u(count),
+            last.map_or_else(V::none, |x| x.enc()),
+            V::L(rest.iter().map(IterItem::enc).collect()),
+            V::u(sum),
+            V::u(skipcount),
+        ])
+    })
+}
+
+/// Records in this order: arcs, vertices, degree_sequence, indegree_sequence, outdegree_sequence,
+/// semidegree_sequence, sinks, sources, then per id: in_neighbors(id), out_neighbors(id).
+fn iter_records<D: Q>(d: &D, ks: &[usize], ids: &[usize]) -> Vec<V> {
+    ks.iter()
+        .map(|&k| {
+            let mut recs = vec![
+                iter_record(|| d.arcs(), k),
+                iter_record(|| d.vertices(), k),
+                iter_record(|| d.degree_sequence(), k),
+                iter_record(|| d.indegree_sequence(), k),
+                iter_record(|| d.outdegree_sequence(), k),
+                iter_record(|| d.semidegree_sequence(), k),
+                iter_record(|| d.sinks(), k),
+                iter_record(|| d.sources(), k),
+            ];
+            for &v in ids {
+                recs.push(iter_record(|| d.in_neighbors(v), k));
+                recs.push(iter_record(|| d.out_neighbors(v), k));
+            }
+            V::L(recs)
+        })
+        .collect()
+}
+
 fn cyclewalks_desc(repr: &str, ids: &[usize]) -> Desc {
     let m = ids.len();
     let arcs: Vec<(usize, usize)> = (0..m).map(|i| (ids[i], ids[(i + 1) % m])).collect();
@@ -283,6 +370,10 @@ pub fn eval(op: &str, args: &[V]) -> Option<Vec<V>> {
         "q_remove" => {
             let ps = args.get(1)?.as_pairs()?;
             Some(crate::with_digraph!(&desc, d => framed(&d, |d| remove(d, &ps))))
+        }
+        "q_iter" => {
+            let (ks, ids) = (ids_at(1)?, ids_at(2)?);
+            Some(crate::with_digraph!(&desc, d => framed(&d, |d| iter_records(d, &ks, &ids))))
         }
         "q_all" => {
             let (vids, pids, ws, ps) = (ids_at(1)?, ids_at(2)?, walks_at(3)?, args.get(4)?.as_pairs()?);
@@ -613,6 +704,64 @@ fn gen_stress(rng: &mut Rng, emit: &mut dyn FnMut(String)) {
     }
 }
 
+/// `q_iter` cases: every representation tag, the matrix emphasised (orders whose `order^2` cells span
+/// one, two, several 64-bit blocks), sparse and dense; `ks` = how often `next()` is called first.
+fn gen_iter(rng: &mut Rng, thorough: bool, emit: &mut dyn FnMut(String)) {
+    let rounds = if thorough { 80 } else { 20 };
+    let mut lines: Vec<(usize, String)> = vec![];
+    for r in 0..rounds {
+        for repr in ["mx", "mx", "mx", "al", "am", "el", "wu", "wi"] {
+            let n = match (r + rng.below(3)) % 6 {
+                0 => 2 + rng.below(7),   // one block
+                1 => 9 + rng.below(3),   // two or three blocks
+                2 => 12 + rng.below(9),
+                3 => 3,
+                4 => 21 + rng.below(12),
+                _ => 8,
+            };
+            let n = if repr == "mx" { n } else { n.min(16) };
+            let (_, arcs) = graphs::gen_arcs(rng, n);
+            let sparse_ids = repr == "am" && rng.chance(1, 2) && n <= 12;
+            let d = if sparse_ids {
+                let mut ids: Vec<usize> = vec![0, 2, 3, 7, 11, 63, 64, 65, 100, 127, 128, 1000];
+                rng.shuffle(&mut ids);
+                ids.truncate(n);
+                ids.sort_unstable();
+                let arcs = arcs.into_iter().map(|(u, v)| (ids[u], ids[v])).collect();
+                plain(repr, ids, arcs)
+            } else {
+                plain(repr, (0..n).collect(), arcs)
+            };
+            // ids: the vertices with the largest indegree (several in-neighbours in one block), a few
+            // random ones, one outside V
+            let mut indeg: std::collections::BTreeMap<usize, usize> = std::collections::BTreeMap::new();
+            for &(_, v) in &d.arcs {
+                *indeg.entry(v).or_default() += 1;
+            }
+            let mut by: Vec<usize> = d.verts.clone();
+            by.sort_by_key(|v| std::cmp::Reverse(indeg.get(v).copied().unwrap_or(0)));
+            let mut ids: Vec<usize> = by.into_iter().take(3).collect();
+            for _ in 0..2 {
+                let x = d.verts[rng.below(d.verts.len())];
+                if !ids.contains(&x) {
+                    ids.push(x);
+                }
+            }
+            ids.push(d.verts.iter().copied().max().unwrap_or(0) + 1);
+            let ks = match rng.below(3) {
+                0 => vec![0, 1],
+                1 => vec![1, 2],
+                _ => vec![1, 3 + rng.below(6)],
+            };
+            lines.push((n, format!("q_iter {} {} {}", d.to_v(), V::us(ks), V::us(ids))));
+        }
+    }
+    lines.sort_by_key(|(n, s)| (*n, s.len()));
+    for (_, s) in lines {
+        emit(s);
+    }
+}
+
 /// Cheap out-of-distribution cases that run in EVERY tier (after the regular stream).
 fn gen_ood(rng: &mut Rng, emit: &mut dyn FnMut(String)) {
     for &n in &[257usize, 300, 513] {
@@ -676,5 +825,6 @@ pub fn gen(rng: &mut Rng, thorough: bool, emit: &mut dyn FnMut(String)) {
     for d in &descs {
         emit_all(rng, d, emit);
     }
+    gen_iter(rng, thorough, emit);
     gen_ood(rng, emit);
 }
